@@ -270,12 +270,15 @@ def main(root, prop, tier, seed, replay):
                                     "detail": ob.get("detail"), "witness": ob.get("witness"), "log": o2[-3000:],
                                     "cls": ob.get("cls")}))
         # correspondence
-        idx_with_terms = [i for i, c in enumerate(cases) if c.get("coq")]
+        idx_with_terms, all_terms = [], []
+        for i, c in enumerate(cases):
+            for t in ([c["coq"]] if c.get("coq") else []) + list(c.get("coq_extra") or []):
+                idx_with_terms.append(i); all_terms.append(t)
         if ok_build and idx_with_terms:
-            failing, err = run_coq_cases(root, prop, res["coq_header"], [cases[i]["coq"] for i in idx_with_terms], tag=f"{tier}")
+            failing, err = run_coq_cases(root, prop, res["coq_header"], all_terms, tag=f"{tier}")
             if err:
                 violations.append(("no-failing-input-found", {"kind": "broken-correspondence", "what": "coqc failed on generated cases", "log": err[-4000:]}))
-            corr_fail = [idx_with_terms[j] for j in failing]
+            corr_fail = sorted({idx_with_terms[j] for j in failing})
         # oracle failures (property predicate evaluated on the implementation)
         seen_cls = {}
         for i, c in enumerate(cases):
@@ -328,7 +331,7 @@ def main(root, prop, tier, seed, replay):
             "distinct_nontrivial": len(keys),
             "rule": res.get("rule", ""),
             "samples": [{"input": c["input"], "impl": c.get("obs")} for c in cases[:: max(1, len(cases) // 3)][:3]],
-            "model_evaluations": sum(1 for c in cases if c.get("coq")),
+            "model_evaluations": sum((1 if c.get("coq") else 0) + len(c.get("coq_extra") or []) for c in cases),
             "correspondence_mismatches": len(corr_fail),
             "oracle_failures": sum(1 for c in cases if c.get("oracle")),
             "distribution": res.get("distribution", {}),
